@@ -1607,6 +1607,25 @@ impl Hasher {
     }
 }
 
+// Verification hooks (off unless built with --cfg blake3_team_blake3_verif).
+#[cfg(blake3_team_blake3_verif)]
+impl Hasher {
+    /// `update` with the scripted `Join` (see join.rs).
+    pub fn verif_update_scripted(&mut self, input: &[u8]) -> &mut Self {
+        self.update_with_join::<join::ScriptedJoin>(input)
+    }
+}
+
+#[cfg(blake3_team_blake3_verif)]
+pub fn verif_set_join_script(script: &[u8]) {
+    join::verif_set_join_script(script)
+}
+
+#[cfg(blake3_team_blake3_verif)]
+pub fn verif_join_count() -> usize {
+    join::verif_join_count()
+}
+
 // Don't derive(Debug), because the state may be secret.
 impl fmt::Debug for Hasher {
     fn fmt(&self, f: &mut fmt::Formatter) -> fmt::Result {
